@@ -334,6 +334,46 @@ func C12(r *core.Run) {
 				}
 			}
 		}
+		// where the assembly files are: each of the four files in one of four directories below regex-assembly
+		// (also directories called like the include and exclude directories). Whatever compare --all looks at,
+		// update --all must have brought up to date.
+		places := []string{"", "group", "include", "group/exclude"}
+		ids := []string{"123456", "123456-chain1", "123456-chain2", "123457"}
+		for mask := 1; mask < 256; mask++ {
+			if idx++; idx%n != shard {
+				continue
+			}
+			os.RemoveAll(filepath.Join(wd, "regex-assembly"))
+			t := core.Tree{"regex-assembly/toolchain.yaml": c01Yaml, "regex-assembly/include/": "", "regex-assembly/exclude/": ""}
+			var where []string
+			for i, a := range ids {
+				pl := places[(mask>>(2*i))&3]
+				where = append(where, pl+"/"+a)
+				t[filepath.Join("regex-assembly", pl, a+".ra")] = texts[i]
+			}
+			t.Materialise(wd)
+			file := rulesFile(ruleSpec{ID: "123456", Regex: "STALE0", Chain: []string{"STALE1", "STALE2"}}, ruleSpec{ID: "123457", Regex: "STALE3"})
+			os.WriteFile(conf, []byte(file), 0o644)
+			r.Inflight(fmt.Sprint("placement ", where))
+			o.Programs++
+			o.States++
+			o.Transitions += 3
+			up := root.UpdateAll()
+			got, _ := os.ReadFile(conf)
+			fail := func(clause, why string) {
+				o.Fails = append(o.Fails, c12Fail{clause, strings.Join(where, " "), "update --all with the assembly files at " + strings.Join(where, ", "), "", string(got), why, "all"})
+			}
+			if up.Kind != inproc.OK {
+				continue // a layout the tool refuses is outside the round trip
+			}
+			if c := root.CompareAll(true); c.Kind != inproc.OK || strings.Contains(c.Stdout, "has changed") {
+				fail("update-then-compare-unchanged", "compare --all (github) right after a successful update --all reports a changed rule: "+tailStr(c.Stdout, 200))
+			}
+			if c := root.CompareAll(false); strings.Contains(c.Stdout, "has changed") {
+				fail("update-then-compare-unchanged", "compare --all right after a successful update --all reports a changed rule: "+tailStr(c.Stdout, 200))
+			}
+		}
+		os.RemoveAll(filepath.Join(wd, "regex-assembly"))
 	}
 	outs, deaths := core.Parallel(r, "machine", spec, r.Workers, func(in in, shard, n int, emit func(out)) {
 		var o out
